@@ -16,6 +16,9 @@ import (
 	"verif/harness/world"
 )
 
+// scriptedBackend is the metastore back end of the scripted scenarios that follow (see world.Backends).
+var scriptedBackend = "memory"
+
 // scripted runs body as one deterministic scenario inside a bubble, with one world and fixed timing.
 func scripted(t *testing.T, r *ev.Run, name string, oracles int, E, R, P time.Duration, body func(h *hist)) {
 	defer func() {
@@ -27,7 +30,7 @@ func scripted(t *testing.T, r *ev.Run, name string, oracles int, E, R, P time.Du
 		h := &hist{r: r, p: Params{Oracles: oracles, Parts: []string{"P", "seed"}}, rng: rand.New(rand.NewSource(1)), seed: -1, svc: "svc", prod: "prod"}
 		h.c3 = newC03()
 		h.store = map[int]*drrT{}
-		h.w = world.New("memguard")
+		h.w = world.NewOn("memguard", scriptedBackend)
 		h.w.MS.WhoFn = func() string { return h.scope }
 		h.expire, h.revoke, h.precision = E, R, P
 		h.logf("scenario %s E=%s R=%s P=%s", name, E, R, P)
@@ -333,6 +336,12 @@ func matrixC05(t *testing.T, r *ev.Run) {
 	// a zero revoke-check interval: every use re-checks the key, so a revocation takes effect on the next encrypt
 	// after a later creation stamp has become available
 	matrixC05R(t, r, 0)
+	// the same matrix end to end over the DynamoDB plug-ins (the revocation is an out-of-band update of the item)
+	for _, be := range []string{"dynamodb-v1", "dynamodb-v2"} {
+		scriptedBackend = be
+		matrixC05R(t, r, 5*time.Minute)
+		scriptedBackend = "memory"
+	}
 	// F11 reproduction: SK revoked long ago, cold cache decrypts then encrypts.
 	E, R, P := 10*time.Hour, 5*time.Minute, time.Minute
 	scripted(t, r, "c05/f11-decrypt-seeds-latest", OC05, E, R, P, func(h *hist) {
@@ -360,13 +369,16 @@ func matrixC05R(t *testing.T, r *ev.Run, R time.Duration) {
 		offsets = []time.Duration{0, 7 * time.Second}
 		step = P / 3
 	}
-	for _, nc := range matrixCfgs() {
+	for ci, nc := range matrixCfgs() {
+		if scriptedBackend != "memory" && ci != 0 && nc.name != "no-cache" {
+			continue
+		}
 		for _, which := range []string{"latest-IK", "latest-SK", "older-IK", "older-SK"} {
 			for _, off := range offsets {
 				for _, variant := range []int{0, 1, 2} {
 					otherRotates := variant == 1
 					faulty := variant == 2 // a transient read error hits the periodic re-check once per interval
-					name := fmt.Sprintf("c05/R=%s/%s/%s/offset=%s/other=%v/faulty=%v", R, nc.name, which, off, otherRotates, faulty)
+					name := fmt.Sprintf("c05/%s/R=%s/%s/%s/offset=%s/other=%v/faulty=%v", scriptedBackend, R, nc.name, which, off, otherRotates, faulty)
 					scripted(t, r, name, OC05|OC01, E, R, P, func(h *hist) {
 						time.Sleep(23 * time.Second)
 						fa := h.factWith(nc.cfg)
